@@ -46,6 +46,7 @@ type C13Sc struct {
 	LatencyNS int64    `json:"latency_ns,omitempty"` // deadline: simulated time per access
 	Repeats   int      `json:"repeats,omitempty"`    // leak: consecutive Run calls
 	FreeSpin  int      `json:"free_spin,omitempty"`  // free: iterations the canceller spins first
+	R0        uint8    `json:"r0,omitempty"`         // initial refresh register of the fixed loop programs
 	Resume    bool     `json:"resume,omitempty"`     // after a cancelled Run call Run again (never cancelled) and compare the end
 }
 
@@ -63,7 +64,8 @@ const (
 
 func (c13) Gen(r *world.Rng, tier string, n int) interface{} {
 	sc := &C13Sc{IOSeed: r.U64()}
-	sc.Prog = []string{"jr", "djnz", "ldir", "io", "structured", "structured"}[r.Intn(6)]
+	sc.Prog = []string{"jr", "djnz", "ldir", "io", "xy", "edxy", "inc", "structured", "structured", "structured"}[r.Intn(10)]
+	sc.R0 = r.Byte()
 	if sc.Prog == "structured" {
 		mode := r.Intn(3)
 		p := gen.Structured(r, gen.Opts{IO: true, Blocks: r.Range(3, 16), MaxSubs: 3, EI: true, StartEI: r.Chance(3, 4)})
@@ -94,6 +96,17 @@ func (c13) Gen(r *world.Rng, tier string, n int) interface{} {
 			sc.Prog = "jr"
 			sc.Struct, sc.Handlers, sc.Table, sc.Events, sc.BP = nil, nil, nil, nil, nil
 		}
+		return sc
+	}
+	if n%12 == 4 || (strings.HasSuffix(tier, "-race") && n%4 == 1) {
+		// one CPU object reused for many Runs, each context cancelled by the host right after its Run
+		// returned (the usual `defer cancel()`); schedule of the old watchers is NOT owned (labelled)
+		sc.Kind = "reuse"
+		sc.Repeats = r.Range(50, 300)
+		sc.Parent = []string{"withcancel", "withtimeout", "nested"}[r.Intn(3)]
+		sc.By = "late"
+		sc.Prog = "jr"
+		sc.Struct, sc.Handlers, sc.Table, sc.Events, sc.BP = nil, nil, nil, nil, nil
 		return sc
 	}
 	if n%6 == 5 {
@@ -231,7 +244,7 @@ func (c *SimCtx) releaseAll() {
 // ---------------------------------------------------------------------------
 
 func c13Segs(sc *C13Sc) (world.Regs, []world.Seg) {
-	regs := world.Regs{PC: 0x0100, SP: 0xf000}
+	regs := world.Regs{PC: 0x0100, SP: 0xf000, R: sc.R0, I: sc.R0 ^ 0x5a}
 	var segs []world.Seg
 	switch sc.Prog {
 	case "jr":
@@ -240,8 +253,21 @@ func c13Segs(sc *C13Sc) (world.Regs, []world.Seg) {
 		// outer: LD B,3 ; inner: DJNZ inner ; INC HL ; JP outer
 		segs = []world.Seg{world.MkSeg(0x0100, []uint8{0x06, 0x03, 0x10, 0xfe, 0x23, 0xc3, 0x00, 0x01})}
 	case "ldir":
-		// LD HL,8000 ; LD DE,9000 ; LD BC,0 ; LDIR ; JP 0100
-		segs = []world.Seg{world.MkSeg(0x0100, []uint8{0x21, 0x00, 0x80, 0x11, 0x00, 0x90, 0x01, 0x00, 0x00, 0xed, 0xb0, 0xc3, 0x00, 0x01})}
+		// LD HL,8000 ; LD DE,8000 ; LD BC,0 ; LDIR ; JP 0100 - 65536 repetitions copying memory
+		// onto itself, so the program never modifies its own code however long it runs
+		segs = []world.Seg{world.MkSeg(0x0100, []uint8{0x21, 0x00, 0x80, 0x11, 0x00, 0x80, 0x01, 0x00, 0x00, 0xed, 0xb0, 0xc3, 0x00, 0x01})}
+	case "xy":
+		// JP (IX) onto itself: every instruction is prefixed (R advances by 2 per Step)
+		regs.IX = 0x0100
+		segs = []world.Seg{world.MkSeg(0x0100, []uint8{0xdd, 0xe9})}
+	case "edxy":
+		// LDIR (BC=0, onto itself) ; JP (IX) back to the LDIR: all prefixed, block-instruction dominated
+		regs.IX, regs.HL, regs.DE = 0x0100, 0x8000, 0x8000
+		segs = []world.Seg{world.MkSeg(0x0100, []uint8{0xed, 0xb0, 0xdd, 0xe9})}
+	case "inc":
+		// IN A,(C) ; AND n ; JR Z,loop : the ordinary device-wait loop (R advances 2+1+1)
+		regs.BC = 0x0010
+		segs = []world.Seg{world.MkSeg(0x0100, []uint8{0xed, 0x78, 0xe6, 0x00, 0x28, 0xfa})}
 	case "io":
 		// IN A,(12) ; OUT (34),A ; INC (HL) ; JR loop
 		regs.HL = 0x8000
@@ -671,10 +697,69 @@ func c13Free(sc *C13Sc, env *Env) *Violation {
 	return nil
 }
 
+// c13Reuse: the same CPU object serves many consecutive Runs; the host cancels
+// each context right after its Run returned. A later Run with a live context
+// must not be disturbed by anything an earlier Run left behind: it ends at its
+// HALT with nil and in the state repeated Step gives. Which goroutine runs when
+// is the Go scheduler's choice here (not owned: labelled in the evidence); the
+// oracle is independent of it, and no delay is asserted.
+func c13Reuse(sc *C13Sc, env *Env) *Violation {
+	// short program: NOP ; HALT. long program: LD B,0 ; (DJNZ $) x3 ; HALT  (~770 Steps)
+	short := []uint8{0x00, 0x76}
+	long := []uint8{0x06, 0x00, 0x10, 0xfe, 0x10, 0xfe, 0x10, 0xfe, 0x76}
+	m, _ := world.NewMachine(world.Regs{PC: 0x0100, SP: 0xf000}, []world.Seg{world.MkSeg(0x0100, short), world.MkSeg(0x0200, long)}, sc.IOSeed, nil)
+	tw, _ := world.NewMachine(world.Regs{PC: 0x0200, SP: 0xf000}, []world.Seg{world.MkSeg(0x0200, long)}, sc.IOSeed, nil)
+	for i := 0; i < 5000; i++ {
+		if tw.StepNoBoundary().Halted {
+			break
+		}
+	}
+	want := tw.CPU.States
+	mk := func() (context.Context, func()) {
+		switch sc.Parent {
+		case "withtimeout":
+			return context.WithTimeout(context.Background(), time.Hour)
+		case "nested":
+			p, pc := context.WithCancel(context.Background())
+			c, cc := context.WithCancel(p)
+			return c, func() { pc(); cc() }
+		default:
+			return context.WithCancel(context.Background())
+		}
+	}
+	for i := 0; i < sc.Repeats; i++ {
+		ctxA, cancelA := mk()
+		m.CPU.States = world.Regs{PC: 0x0100, SP: 0xf000}.States()
+		if err := m.CPU.Run(ctxA); err != nil {
+			return viol("reuse-error-value", "round %d: Run of NOP;HALT with a live context returned %v", i, err)
+		}
+		cancelA() // the host's deferred cancel, after Run has returned
+		ctxB, cancelB := mk()
+		m.CPU.States = world.Regs{PC: 0x0200, SP: 0xf000}.States()
+		err := m.CPU.Run(ctxB)
+		st, halt := m.CPU.States, m.CPU.HALT
+		cancelB()
+		if err != nil || !halt {
+			return viol("reuse-error-value", "round %d: a Run whose context was never cancelled returned %v with HALT=%t at PC=%04x (the context cancelled before it belonged to the previous Run on this CPU)", i, err, halt, st.PC)
+		}
+		st.IR.Lo, want.IR.Lo = 0, 0
+		if st != want {
+			return viol("reuse-error-value", "round %d: Run with a live context ended in a different state than repeated Step:%s", i, world.DiffStates(want, st, true))
+		}
+	}
+	env.FireN("runs-on-a-reused-cpu(late-cancel)", uint64(2*sc.Repeats))
+	env.Class("reuse/%s", sc.Parent)
+	env.NonTrivial = true
+	return nil
+}
+
 func (c13) Exec(sci interface{}, env *Env) (res *Violation) {
 	sc := sci.(*C13Sc)
 	if sc.Kind == "free" {
 		return c13Free(sc, env)
+	}
+	if sc.Kind == "reuse" {
+		return c13Reuse(sc, env)
 	}
 	if env.T == nil {
 		return viol("harness", "no *testing.T for a synctest bubble")
